@@ -523,6 +523,9 @@ func constTableOf(p *Program, v ssa.Value) ([]int64, bool) {
 }
 
 func checkC03(p *Program, r *Report) {
+	// round 6 (systematic): no unguarded mutable package-level state behind this property's functions (§2.9)
+	sharedStateRule(p, r, NewEffects(p), "C03.shared", []string{"address.go", "bech32/bech32.go"})
+	r.Floor("C03.shared", 0)
 	r.Explain = "C03.lfsr: the two remainder functions are recognised, from their SSA, as the LFSRs of the CashAddr and BIP173 specifications — register " +
 		"split (c >> K, (c & M) << 5), initial value, the five generator constants tied to the five feedback bits (unrolled or table + counted loop), final " +
 		"xor — over every symbol of the input; the generator constants are also checked for internal consistency G_i = {2^i}·G_0 over GF(32). C03.accept: " +
